@@ -5,7 +5,7 @@ import ast
 from ..program import AnalysisError, walk_local, dotted
 from ..analysis import Spec, src, class_const, const_value
 from ..deps import Deps
-from ..rules import (substitute_locals, guard_paths, inside, before, GWF, EXC, mpt, need_func, stores_to, raise_class,
+from ..rules import (regex_match, substitute_locals, guard_paths, inside, before, GWF, EXC, mpt, need_func, stores_to, raise_class,
                      chained_assign_value, is_const, explicit_exits)
 from . import common
 from .c04 import signature, diff_sig
@@ -336,7 +336,12 @@ def fix_versions(prog, an, rep):
         sg = signature(d, atom, expand=False)
         if sg[0] == 'cmp':
             op = sg[2] if pol else FLIP.get(sg[2], '?' + sg[2])
-            lft, rgt = sg[1], sg[3]
+            # `re.compile(P).match(x)` and `re.match(P, x)`: one filter
+            lft, rgt = (tuple(sorted({'re.compile()' if x == 're.match()'
+                                      else x for x in side}))
+                        if isinstance(side, tuple) and
+                        all(isinstance(x, str) for x in side) else side
+                        for side in (sg[1], sg[3]))
             if op in ('==', '!='):
                 lft, rgt = sorted((lft, rgt), key=repr)
             sg = ('cmp', lft, op, rgt)
@@ -392,18 +397,13 @@ def filters(prog, an, rep):
     checked = hot = None
     n_pat = 0
     for u in walk_local(f.node, include_root=False):
-        if not (isinstance(u, ast.Call) and
-                isinstance(u.func, ast.Attribute) and
-                u.func.attr == 'match' and u.args):
-            continue
-        comp = substitute_locals(f, u.func.value)
-        if not (isinstance(comp, ast.Call) and
-                dotted(comp.func) == 're.compile' and comp.args):
+        m = regex_match(f, u)
+        if m is None or m[1] is None:
             continue
         n_pat += 1
-        name = src(u.func.value)[:30]
-        pat = const_value(comp.args[0])
-        if isinstance(u.args[0], ast.Name) and _in_comprehension(f, u):
+        name = src(u.func)[:30]
+        pat = const_value(m[0])
+        if isinstance(m[1], ast.Name) and _in_comprehension(f, u):
             checked = (name, pat, u)
         else:
             hot = (name, pat, u)
